@@ -887,6 +887,11 @@ fn main() {
         if case % 10 == 7 {
             for m in misc_probe(&mut r) { writeln!(w, "X colls misc probe :: {m}").unwrap(); }
         }
+        if case % 10 == 1 || case % 10 == 6 {
+            let (notes, cline) = producers_probe(&mut r);
+            if let Some(c) = cline { writeln!(w, "{c}").unwrap(); }
+            for m in notes { writeln!(w, "X colls producers probe :: {m}").unwrap(); }
+        }
         if case % 10 == 5 {
             let (notes, cline) = extras_probe(&mut r);
             if let Some(c) = cline { writeln!(w, "{c}").unwrap(); }
